@@ -55,4 +55,6 @@ VARIANTS = [
     V("export-format-dispatch-crossed", "src/soundevent/io/crowsetta/annotation.py", '    if annotation_fmt == "bbox":', '    if annotation_fmt != "bbox":', "R10.9"),
     V("import-rejects-annotations-with-a-recording", "src/soundevent/io/crowsetta/annotation.py", "    if recording is None:\n        if path is None:", "    if recording is not None:\n        if path is None:", "R10.9"),
     V("single-sequence-not-wrapped", "src/soundevent/io/crowsetta/annotation.py", "    if not isinstance(crowsetta_sequences, list):", "    if isinstance(crowsetta_sequences, list):", "R10.9"),
+    # G.12
+    V("sample-only-segments-rejected(G.12)", "src/soundevent/io/crowsetta/segment.py", "    start_time = segment.onset_s\n", "    if segment.onset_s is None:\n        raise ValueError(\"The onset in seconds is required.\")\n\n    start_time = segment.onset_s\n", "G.12"),
 ]
